@@ -35,6 +35,8 @@ CONSTANTS
                       \*      original because of its invariants) are taken for definitions of the new class: they inherit
                       \*      from all bases (also from those that come later in the MRO) and their lists are re-bound on
                       \*      the function object of the base
+  SwLateInvAppendsToBase, \* F26: @invariant on a class created through the metaclass BEFORE its base got invariants appends
+                      \*      to the lists found on the base
   SwShadow            \* F18b: a wrapper bound in a class dictionary shadows, for subclasses with several bases,
                       \*       definitions that come later in the method resolution order
 
@@ -346,26 +348,35 @@ Create ==
 -----------------------------------------------------------------------------
 (* Step "deco": the class decorators (@invariant), applied bottom-up.       *)
 
+\* icontract.invariant(..)(class k) with contract c: returns the new heaps
+ApplyInvDeco(k, c) ==
+  LET has == InvListOf(cl, k, "inv") # 0             \* hasattr(cls, "__invariants__")
+      own == cl[k].inv # 0                            \* "__invariants__" in cls.__dict__
+      \* the three lists the decorator appends to: created on the class, found through inheritance, or - a class
+      \* created through the metaclass before its base got invariants - copies of the lists found on the base
+      copy == has /\ ~own /\ hist.cls[k].dbc /\ ~SwLateInvAppendsToBase
+      lh1 == IF ~has THEN Append(Append(Append(lst, <<>>), <<>>), <<>>)
+             ELSE IF copy THEN Append(Append(Append(lst, lst[InvListOf(cl, k, "inv")]), lst[InvListOf(cl, k, "oncall")]),
+                                      lst[InvListOf(cl, k, "onset")])
+             ELSE lst
+      cl1 == IF ~has \/ copy THEN [cl EXCEPT ![k].inv = Len(lst) + 1, ![k].oncall = Len(lst) + 2, ![k].onset = Len(lst) + 3]
+             ELSE cl
+      li == InvListOf(cl1, k, "inv")
+      lc == InvListOf(cl1, k, "oncall")
+      ls == InvListOf(cl1, k, "onset")
+      lh2 == [lh1 EXCEPT ![li] = Append(@, c)]
+      lh3 == IF CON(c).on \in {"CALL", "ALL"} THEN [lh2 EXCEPT ![lc] = Append(@, c)] ELSE lh2
+      lh4 == IF CON(c).on \in {"SETATTR", "ALL"} THEN [lh3 EXCEPT ![ls] = Append(@, c)] ELSE lh3
+      r == AddInvChecks(fo, lh4, cl1, k)
+  IN [lh |-> lh4, fh |-> r.fh, ch |-> r.ch]
+
 Deco ==
   /\ pc = "deco"
   /\ IF di > Len(CD.invs)
        THEN /\ res' = [res EXCEPT ![step] = "ok"] /\ pc' = "next"
             /\ UNCHANGED <<lst, fo, cl, di>>
-       ELSE LET k == step
-                d == CD.invs[di]
-                has == InvListOf(cl, k, "inv") # 0             \* hasattr(cls, "__invariants__")
-                \* the three lists the decorator appends to: found through inheritance, or created on the class
-                lh1 == IF has THEN lst ELSE Append(Append(Append(lst, <<>>), <<>>), <<>>)
-                cl1 == IF has THEN cl ELSE [cl EXCEPT ![k].inv = Len(lst) + 1, ![k].oncall = Len(lst) + 2,
-                                                    ![k].onset = Len(lst) + 3]
-                li == InvListOf(cl1, k, "inv")
-                lc == InvListOf(cl1, k, "oncall")
-                ls == InvListOf(cl1, k, "onset")
-                lh2 == [lh1 EXCEPT ![li] = Append(@, d.c)]
-                lh3 == IF CON(d.c).on \in {"CALL", "ALL"} THEN [lh2 EXCEPT ![lc] = Append(@, d.c)] ELSE lh2
-                lh4 == IF CON(d.c).on \in {"SETATTR", "ALL"} THEN [lh3 EXCEPT ![ls] = Append(@, d.c)] ELSE lh3
-                r == AddInvChecks(fo, lh4, cl1, k)
-            IN /\ lst' = lh4 /\ fo' = r.fh /\ cl' = r.ch /\ di' = di + 1
+       ELSE LET r == ApplyInvDeco(step, CD.invs[di].c)
+            IN /\ lst' = r.lh /\ fo' = r.fh /\ cl' = r.ch /\ di' = di + 1
                /\ UNCHANGED <<pc, res>>
   /\ UNCHANGED <<hist, step, ns, regd>>
 
@@ -385,6 +396,10 @@ PostHoc ==
   /\ pc = "posthoc"
   /\ IF di > Len(hist.posthoc)
        THEN pc' = "done" /\ UNCHANGED <<lst, fo, cl, di, res>>
+       ELSE IF hist.posthoc[di].d.d = "invariant"
+         THEN \* a class decorated with an invariant after later classes (its subclasses) have been created
+              LET r == ApplyInvDeco(hist.posthoc[di].k, hist.posthoc[di].d.c)
+              IN /\ lst' = r.lh /\ fo' = r.fh /\ cl' = r.ch /\ di' = di + 1 /\ pc' = "posthoc" /\ res' = res
        ELSE LET ph  == hist.posthoc[di]
                 mem == Lookup(cl, ph.k, ph.name)
                 r   == ApplyDeco(fo, lst, mem.f, ph.d)
